@@ -124,6 +124,12 @@ func vMatchShape(n node, sh *vShape, kinds []byte, texts []string, nums []float6
 				return false
 			}
 			return vAnd(vAnd(x.AxisType == "child", x.LocalName == texts[sh.leaf]), vAnd(x.Prefix == "", x.Prop == ""))
+		case 'Q':
+			x, ok := n.(*axisNode)
+			if !ok || x.Input != nil {
+				return false
+			}
+			return vAnd(vAnd(x.AxisType == "child", x.LocalName == texts[sh.leaf]), x.Prefix == "p")
 		case 'S':
 			x, ok := n.(*operandNode)
 			if !ok {
@@ -173,6 +179,8 @@ func H_prec() {
 			switch p[0] {
 			case 'N':
 				texts[i] = vPiece(p, memo)
+			case 'Q':
+				texts[i] = vPiece("N"+p[1:], memo)
 			case 'S':
 				full := vPiece(p, memo)
 				texts[i] = full[1 : len(full)-1]
